@@ -253,7 +253,8 @@ def explore(rep, tier, seed):
             scale = float(np.max(np.abs(g))) or 1.0
             # ---- grid clauses (explicit function)
             if not np.all(np.isfinite(g)) or np.any(g < -1e-12 * scale):
-                rep.failure('C10:unclassified:%s:negative-or-nan' % name, '%s.%s is negative / not finite inside the validity range (params %r)' % (name, fn, params), rp)
+                rep.failure('C10:TemkinApprox-negative-loading-theta-above-4' if (name == 'TemkinApprox' and params['tht'] > 4 and np.all(np.isfinite(g)))
+                            else 'C10:unclassified:%s:negative-or-nan' % name, '%s.%s is negative / not finite inside the validity range (params %r)' % (name, fn, params), rp)
             if mono and name != 'WVST' and np.any(np.diff(g) < -1e-10 * scale):
                 i = int(np.argmin(np.diff(g)))
                 rep.failure('C10:unclassified:%s:not-monotone' % name, '%s.%s decreases between %r and %r (params %r)' % (name, fn, grid[i], grid[i + 1], params), rp)
